@@ -128,6 +128,10 @@ func verifyManifest(inz *zip.Reader, manifest []byte) error {
 	}
 	zipfiles := make(map[string]*zip.File, len(inz.File))
 	for _, fh := range inz.File {
+		// only one entry of a name would be compared with the manifest
+		if zipfiles[fh.Name] != nil {
+			return fmt.Errorf("file %s appears more than once in JAR", fh.Name)
+		}
 		zipfiles[fh.Name] = fh
 	}
 	for filename, keys := range parsed.Files {
